@@ -61,6 +61,8 @@ def holds(e, asg, domains):
         return operand_value(e[2], asg) in operand_value(e[1], asg)
     if k == "pred":
         return bool(plain_bigger(operand_value(e[1], asg), operand_value(e[2], asg)))
+    if k == "eqsub":      # operand == an(entity(u, cond)): the operand is one of the u that satisfy cond (under the outer assignment)
+        return any(holds(e[3], {**asg, e[2]: v}, domains) and operand_value(e[1], asg) == v for v in domains[e[2]])
     if k == "and":
         return holds(e[1], asg, domains) and holds(e[2], asg, domains)
     if k == "or":
@@ -90,6 +92,8 @@ def free_vars(e):
         return operand_vars(e[2]) | operand_vars(e[3])
     if k in ("contains", "pred"):
         return operand_vars(e[1]) | operand_vars(e[2])
+    if k == "eqsub":
+        return operand_vars(e[1]) | (free_vars(e[3]) - {e[2]})
     if k in ("and", "or"):
         return free_vars(e[1]) | free_vars(e[2])
     if k == "not":
@@ -103,6 +107,8 @@ def all_vars(e):
     k = e[0]
     if k in ("exists", "forall"):
         return all_vars(e[2]) | {e[1]}
+    if k == "eqsub":
+        return operand_vars(e[1]) | all_vars(e[3]) | {e[2]}
     if k in ("and", "or"):
         return all_vars(e[1]) | all_vars(e[2])
     if k == "not":
@@ -117,6 +123,8 @@ def skeleton(e):
         kind = {"cmp": "cmp", "contains": "in", "pred": "pred"}[k]
         ints = any(v.startswith("n") for v in vs)
         return f"{kind}[{','.join(vs)}]" + ("#int" if ints else "")
+    if k == "eqsub":
+        return f"eq-subquery[{','.join(sorted(operand_vars(e[1])))}]({e[2]};{skeleton(e[3])})"
     if k in ("and", "or"):
         return f"{k}({skeleton(e[1])},{skeleton(e[2])})"
     if k == "not":
@@ -188,6 +196,8 @@ class Env:
             return contains(self.operand(e[1]), self.operand(e[2]))
         if k == "pred":
             return bigger(self.operand(e[1]), self.operand(e[2]))
+        if k == "eqsub":
+            return self.operand(e[1]) == an(entity(self.vars[e[2]], self.build(e[3])))
         if k == "and":
             return and_(self.build(e[1]), self.build(e[2]))
         if k == "or":
@@ -247,6 +257,8 @@ def worlds():
         {"x": w2, "y": w1[:2], "z": w2, "u": w2[1:], "n": [0, 1]},
         {"x": w1, "y": w3, "z": w1, "u": [], "n": [2, 0]},
         {"x": w3, "y": w2, "z": [], "u": w1, "n": [0]},
+        # distinct elements with colliding hashes / equal values: hash(-1) == hash(-2), 1 == True (used for int conditions only)
+        {"x": w3, "y": w3, "z": w3, "u": w3, "n": [-2, -1, 1, True, 0]},
     ]
 
 
